@@ -6,6 +6,8 @@ from vsa import front
 from vsa.facts import Facts, unwrap, show, walk, lit_value
 from vsa.front import AnalysisBroken
 from vsa.alg import Fold, S, guard_strs
+import sympy as sp
+from sympy.core.function import AppliedUndef
 from vsa.cfg import CFG
 from vsa.cases import decide, executes, table_mismatch
 
@@ -105,6 +107,16 @@ def run(rep, tier):
         def orc(leaf):
             s_ = str(leaf)
             if isinstance(leaf, tuple):
+                if leaf[0] in ("noneof", "anyof", "allof") and len(leaf) == 3:
+                    from vsa.alg import ALG_RANGES
+                    c_ = leaf[2]
+                    if "reserved_keywords_" in str(ALG_RANGES.get(leaf[1])) and isinstance(c_, tuple) and len(c_) == 3 and c_[0] in ("==", "!=") and "elem@%s" % leaf[1] in (str(c_[1]), str(c_[2])):
+                        # some keyword equals the value  <=>  K
+                        if c_[0] == "==" and leaf[0] in ("noneof", "anyof"):
+                            return ("K", leaf[0] == "anyof")
+                        if c_[0] == "!=" and leaf[0] == "allof":
+                            return ("K", False)
+                    return None
                 if leaf[0] in ("==", "!=") and len(leaf) == 3:
                     if "getAttribute" in s_ and '"default"' in s_ and keyword is not None and '"%s"' % keyword in s_:
                         return ("E", leaf[0] == "==")
@@ -220,11 +232,44 @@ def run(rep, tier):
     heads = sorted(set(heads))
     rep.check(heads == sorted(["bool", "float", "float+", "int", "int+"]), "R11.3", "type-heads", "validator type heads: %s" % heads,
               "IsValidOption type heads are %s" % heads, iv.loc(), sample=True)
-    # float+ / int+ must test non-negativity
-    txt = {nows(show(n["cond"])): nows(" ".join(show(x) for x in walk(n["then"]) if x.get("k") in ("opcall", "assign", "binop"))) for n in iv.walk() if n.get("k") == "if"}
-    for h, ty in (("float+", "double"), ("int+", "long")):
-        body = [v for k, v in txt.items() if '"%s"' % h in k]
-        rep.check(bool(body) and ">=0" in body[0].replace(".0", ""), "R11.3", "nonnegative|" + h, "%s requires value >= 0" % h, "IsValidOption accepts negative values for %s" % h, iv.loc())
+    # float+ / int+ must test non-negativity: the folded result, with the head bound to the keyword and the conversion succeeding, for values -1, 0, 1
+    fiv = Fold(iv).run()
+    civ = getattr(fiv, "conds", {})
+    rv = [e for e in fiv.events if e["kind"] == "return"]
+    pnm, cnm = iv.j["params"][0]["name"], iv.j["params"][1]["name"]
+
+    def valid_oracle(lf):
+        if isinstance(lf, tuple) and len(lf) == 3 and lf[0] in ("==", "!="):
+            a_, b_ = str(lf[1]), str(lf[2])
+            for x_, y_ in ((a_, b_), (b_, a_)):
+                if x_ == "front(%s)" % cnm and re.match(r'^"[^"]*"$', y_):
+                    return ("HEAD=" + y_.strip('"'), lf[0] == "==")
+                if x_.startswith("find(") and "additional_choices_" in x_ and "additional_choices_" in y_:
+                    return ("ADD", lf[0] == "!=")
+                if x_.startswith("find(") and '"choices"' in x_ and "npos" in y_:
+                    return ("MULTI", lf[0] == "!=")
+        if str(getattr(lf, "func", "")) == "IsValidCast":
+            return ("CAST", True)
+        return None
+    for h in ("float+", "int+"):
+        ok_h, why_h = len(rv) == 1, "expected a single return"
+        if ok_h:
+            val = rv[0]["value"]
+            stack, asat = [val], set()
+            while stack:
+                c_ = stack.pop()
+                if isinstance(c_, tuple):
+                    stack += list(c_[1:])
+                elif isinstance(c_, sp.Basic):
+                    asat |= {a_ for a_ in c_.atoms(AppliedUndef) if str(a_.func) == "as" and str(a_.args[0]) == pnm}
+            for v_, want_ in ((-1, False), (0, True), (1, True)):
+                A = {"HEAD=" + k_: k_ == h for k_ in heads}
+                A.update({"CAST": True, "ADD": False, "MULTI": False})
+                t_ = decide(val, {a_: sp.Integer(v_) for a_ in asat}, A, valid_oracle, civ)
+                if t_ is None or t_ != want_:
+                    ok_h, why_h = False, "for the value %d it answers %s" % (v_, t_)
+                    break
+        rep.check(ok_h, "R11.3", "nonnegative|" + h, "%s requires value >= 0" % h, "IsValidOption: type %s: %s (negative values must be rejected, zero and positive ones accepted)" % (h, why_h), iv.loc())
     check_multichoice(rep, iv)
     lint_xml(rep, heads, reserved)
 
@@ -442,7 +487,7 @@ def check_multichoice(rep, iv):
     import itertools
     import sympy as sp
     from vsa.cases import decide, resolve_ite
-    fo = Fold(iv, inline=False).run()
+    fo = Fold(iv).run()
     conds = getattr(fo, "conds", {})
     cp = iv.j["params"][1]["name"]
     cands = []
@@ -453,6 +498,67 @@ def check_multichoice(rep, iv):
         txt = str(l.get("step")) + str(l.get("breaks"))
         if "find(" in txt and str(var) in txt and cp in txt:
             cands.append(l)
+    if not cands:
+        # std::all_of / any_of / none_of over the words: the term is decided per word
+        algs = [l for l in getattr(fo, "loops", []) if l.get("algorithm")]
+        rets = [e for e in fo.events if e["kind"] == "return"]
+        terms = []
+
+        def find_terms(c):
+            if isinstance(c, tuple):
+                if c and c[0] in ("allof", "anyof", "noneof") and len(c) == 3:
+                    terms.append(c)
+                for x in c[1:]:
+                    find_terms(x)
+        for r_ in rets:
+            find_terms(r_["value"])
+        terms = [t_ for t_ in terms if "find(" in str(t_[2]) and cp in str(t_[2]) and ("elem@%s" % t_[1]) in str(t_[2])]
+        if len(terms) != 1 or len(rets) != 1:
+            rep.broken("R11.3", "IsValidOption: neither a loop nor an all_of/any_of/none_of over the words of a multi-selection value was found")
+            return
+        kind, lid, pc = terms[0]
+        wsym = "elem@%s" % lid
+
+        def orc_w(lf):
+            if isinstance(lf, tuple) and len(lf) == 3 and lf[0] in ("==", "!="):
+                a_, b_ = str(lf[1]), str(lf[2])
+                for x_, y_ in ((a_, b_), (b_, a_)):
+                    if x_.startswith("find(") and wsym in x_ and cp in x_ and y_ in ("cend(%s)" % cp, "end(%s)" % cp):
+                        return ("FOUND", lf[0] == "!=")
+            return None
+        pw = {m_: decide(pc, None, {"FOUND": m_}, orc_w, conds) for m_ in (True, False)}
+        bad = None
+        if None in pw.values():
+            bad = "cannot decide the per-word test %s" % fo.cond_str(pc)[:120]
+        else:
+            def term_value(m1, m2):
+                vs = [pw[m1], pw[m2]]
+                return all(vs) if kind == "allof" else any(vs) if kind == "anyof" else not any(vs)
+
+            def orc_t(lf):
+                if lf == terms[0]:
+                    return ("TERM", True)
+                return valid_outer(lf)
+
+            def valid_outer(lf):
+                if isinstance(lf, tuple) and len(lf) == 3 and lf[0] in ("==", "!="):
+                    a_, b_ = str(lf[1]), str(lf[2])
+                    for x_, y_ in ((a_, b_), (b_, a_)):
+                        if x_ == "front(%s)" % cp and re.match(r'^"[^"]*"$', y_):
+                            return ("TYPED", lf[0] == "==")
+                        if x_.startswith("find(") and "additional_choices_" in x_ and "additional_choices_" in y_:
+                            return ("ADD", lf[0] == "!=")
+                        if x_.startswith("find(") and '"choices"' in x_ and "npos" in y_:
+                            return ("MULTI", lf[0] == "!=")
+                return None
+            for m1, m2 in itertools.product((True, False), repeat=2):
+                A = {"TERM": term_value(m1, m2), "TYPED": False, "ADD": False, "MULTI": True}
+                t_ = decide(rets[0]["value"], None, A, orc_t, conds)
+                if t_ is None or t_ != (m1 and m2):
+                    bad = "for a two-word value whose words are %s / %s the result is %s (required %s)" % ("declared" if m1 else "UNDECLARED", "declared" if m2 else "UNDECLARED", t_, m1 and m2)
+                    break
+        rep.check(bad is None, "R11.3", "multi-choice-all-words", "a multi-selection value is valid iff every word is a declared choice", "IsValidOption: %s" % bad, iv.loc(terms and algs[0]["node"] if algs else None), sample=True)
+        return
     if len(cands) != 1:
         rep.broken("R11.3", "IsValidOption: the loop over the words of a multi-selection value was not found (%d candidates)" % len(cands))
         return
